@@ -405,3 +405,67 @@ pub fn misc_resume_cfbbuf() {
     blk.encrypt_blocks(&mut blocks);
     for i in 0..5 { assert!(&blocks[i][..] == &exp[4 * i..4 * i + 4], "buffered CFB differs from block-level CFB"); }
 }
+
+// ---------------------------------------------------------------- keystream backends: the parallel entry point called
+// directly for every width including 1 (the dependency's own drivers skip `gen_par_ks_blocks` when the width is 1)
+#[cfg(not(kani))]
+use cipher::{array::Array, crypto_common::BlockSizes, BlockSizeUser, StreamCipherBackend, StreamCipherClosure, StreamCipherCore};
+#[cfg(not(kani))]
+perm_cipher!(P4w1, U4, 4, U1);
+#[cfg(not(kani))]
+perm_cipher!(P16w1, U16, 16, U1);
+#[cfg(not(kani))]
+perm_cipher!(P16w3, U16, 16, U3);
+#[cfg(not(kani))]
+pub struct KsParEntry<'a, BS: BlockSizes> { pub out: &'a mut [Array<u8, BS>] }
+#[cfg(not(kani))]
+impl<BS: BlockSizes> BlockSizeUser for KsParEntry<'_, BS> { type BlockSize = BS; }
+#[cfg(not(kani))]
+impl<BS: BlockSizes> StreamCipherClosure for KsParEntry<'_, BS> {
+    fn call<B: StreamCipherBackend<BlockSize = BS>>(self, backend: &mut B) {
+        let (chunks, tail) = Array::<Array<u8, BS>, B::ParBlocksSize>::slice_as_chunks_mut(self.out);
+        for c in chunks { backend.gen_par_ks_blocks(c); }
+        for b in tail { backend.gen_ks_block(b); }
+    }
+}
+#[cfg(not(kani))]
+macro_rules! parks {
+    ($h:ident, $cipher:ident, $b:expr, $core:ty) => {
+        /// n keystream blocks through gen_par_ks_blocks (+ single blocks for the rest) == n single blocks; the
+        /// generators are in the same state afterwards
+        pub fn $h() {
+            let c = $cipher { k: fill() };
+            let iv: [u8; $b] = fill();
+            let n = (nd::any::<u8>() % 8) as usize;
+            let mut a = <$core>::inner_iv_init(c.clone(), &iv.into());
+            let mut b = <$core>::inner_iv_init(c.clone(), &iv.into());
+            let mut xa: [Array<u8, _>; 8] = Default::default();
+            let mut xb: [Array<u8, _>; 8] = Default::default();
+            a.process_with_backend(KsParEntry { out: &mut xa[..n] });
+            let mut i = 0;
+            while i < n { b.write_keystream_block(&mut xb[i]); i += 1; }
+            assert!(xa == xb, "keystream through the parallel entry point differs from block-at-a-time keystream");
+            a.write_keystream_block(&mut xa[0]);
+            b.write_keystream_block(&mut xb[0]);
+            assert!(xa[0] == xb[0], "generator state after the parallel entry point differs");
+        }
+    };
+}
+#[cfg(not(kani))]
+parks!(misc_parks_ctr32be_w1, P4w1, 4, ctr::CtrCore<P4w1, ctr::flavors::Ctr32BE>);
+#[cfg(not(kani))]
+parks!(misc_parks_ctr32le_w2, P4w2, 4, ctr::CtrCore<P4w2, ctr::flavors::Ctr32LE>);
+#[cfg(not(kani))]
+parks!(misc_parks_ctr64be_w3, P8w3, 8, ctr::CtrCore<P8w3, ctr::flavors::Ctr64BE>);
+#[cfg(not(kani))]
+parks!(misc_parks_ctr128le_w1, P16w1, 16, ctr::CtrCore<P16w1, ctr::flavors::Ctr128LE>);
+#[cfg(not(kani))]
+parks!(misc_parks_ctr128be_w3, P16w3, 16, ctr::CtrCore<P16w3, ctr::flavors::Ctr128BE>);
+#[cfg(not(kani))]
+parks!(misc_parks_belt_w1, P16w1, 16, belt_ctr::BeltCtrCore<P16w1>);
+#[cfg(not(kani))]
+parks!(misc_parks_belt_w3, P16w3, 16, belt_ctr::BeltCtrCore<P16w3>);
+#[cfg(not(kani))]
+parks!(misc_parks_ofb_w1, P4w1, 4, ofb::OfbCore<P4w1>);
+#[cfg(not(kani))]
+parks!(misc_parks_ofb_w2, P4w2, 4, ofb::OfbCore<P4w2>);
